@@ -84,6 +84,8 @@ func yamlKeyOfPath(w *World, path string) (tag string, exported bool, keyPath st
 func runC07(c *Ctx) {
 	w := c.w
 	g := w.Flow()
+	// the Via the stamp is written into belongs to this message alone (shared with C14)
+	c14DecoderPurityFrom(c, "ParseVia")
 	rule := "wiring"
 	fv := w.field("RawMessage", "ReceivedSupport")
 	if fv == nil {
